@@ -67,6 +67,8 @@ def build(e, cfg):
             am = [1.0 + i for i in range(n)]
             st = [(i + p) % T for i in range(n)]
             st[-1] = T - 1
+            if cfg.get('unused_last_template') and p < P - 1 and T >= 2:
+                st = [0] * n          # the last template(s) of this probe have no spike
             sc = list(st)
         pr.ts, pr.am, pr.st, pr.sc = ts, am, st, sc
         fs.add(d + '/spike_times.npy', vfs.npy_entry(_arr(ts, (n, 1) if cfg.get('col_vectors') else (n,), tdt)))
